@@ -1180,7 +1180,10 @@ func (r *Run) runAttempt(idx int, plan AttemptPlan) bool {
 		att.PacketsTotal = len(r.master.packets)
 		att.PacketsDeliv = r.master.packetsDelivered()
 		if len(att.Causes) == 0 {
-			att.PacketsAtCause = att.PacketsDeliv
+			// the stream ended by itself (a value it cannot decode): how many packets
+			// the network had delivered by the time Stream was back depends on the
+			// driver's Close-vs-reader race and is not part of the canonical trace
+			att.PacketsAtCause = -1
 		}
 		att.DumpServed = r.master.served
 		for k := 0; k < att.PacketsDeliv && k < len(r.master.packets); k++ {
